@@ -9,6 +9,8 @@ from ..evidence import Violation
 
 from metador_core.plugin.metaclass import UndefVersion  # noqa: E402
 from metador_core.plugins import schemas  # noqa: E402
+from typing import Optional  # noqa: E402
+from metador_core.schema import MetadataSchema  # noqa: E402
 
 ID = "C07"
 LEVEL = "exploration"
@@ -124,6 +126,14 @@ def probe(sess, op, rec=None, full=False):
                     raise Violation("C07:contains-raises", f"{where}: ({sname},{sver}) in meta of {p}: {type(e).__name__}: {e}", bool(cands))
                 if present != bool(cands):
                     raise Violation("C07:contains-wrong", f"{where}: ({sname},{sver}) in meta of {p} -> {present}", bool(cands))
+                # something that names no schema plugin at all is not contained (and matches nothing)
+                for form, key in (("class-without-plugin", _NoPlugin), ("None", None)):
+                    try:
+                        bogus = (key in h, [str(r) for r in h.query(key)] if key is not None else [])
+                    except Exception:  # noqa: BLE001 - refusing the question is fine
+                        bogus = (False, [])
+                    if bogus[0] or bogus[1]:
+                        raise Violation(f"C07:contains-wrong:{form}", f"{where}: <{form}> in meta of {p} -> {bogus[0]}, query -> {bogus[1]}", "False / nothing")
                 if sver is not None and schemas.get(sname, sver) is not None:
                     # the same question asked with a plugin reference and with the schema class
                     for form, key in (("ref", schemas.PluginRef(name=sname, version=sver)), ("class", schemas.get(sname, sver))):
@@ -194,6 +204,12 @@ def probe(sess, op, rec=None, full=False):
             exp_l = sorted((n, tuple(v["ref"][1])) for n, v in m.meta.get(p, {}).items())
             if listed != exp_l:
                 raise Violation("C07:meta-query-all-wrong", f"{where}: meta.query() at {p} -> {listed}", exp_l)
+
+
+class _NoPlugin(MetadataSchema):
+    """A schema class that is no plugin."""
+
+    x: Optional[int]
 
 
 def run_case(case, rec=None):
